@@ -10,18 +10,18 @@ EXTENDS DirLock, TLAPS
 ASSUME NoneNotOpener == "none" \notin Openers
 ASSUME NoBug == Bug = {}      \* the intended design (the Bug switch reproduces the pinned tree)
 
-TypeOK == /\ st \in [Openers -> {"closed", "loading", "open"}]
+TypeOK == /\ st \in [Openers -> {"closed", "names", "files", "index", "open"}]
           /\ holder \in Openers \cup {"none"}
-          /\ corrupt \in BOOLEAN
+          /\ corrupt \in Kinds
           /\ steps \in Nat
 
 \* stated without cardinalities: at most one opener is not closed, and it is the holder
 Excl == \A o \in Openers : st[o] # "closed" => holder = o
-Held == holder # "none" => st[holder] \in {"open", "loading"}
+Held == holder # "none" => st[holder] # "closed"
 IndInv == TypeOK /\ Excl /\ Held
 
 LEMMA InitInv == Init => IndInv
-  BY NoneNotOpener, NoBug DEF Init, IndInv, TypeOK, Excl, Held
+  BY NoneNotOpener, NoBug DEF Init, Kinds, IndInv, TypeOK, Excl, Held
 
 LEMMA NextInv == IndInv /\ [Next]_vars => IndInv'
 <1> SUFFICES ASSUME IndInv, [Next]_vars PROVE IndInv'
@@ -29,11 +29,11 @@ LEMMA NextInv == IndInv /\ [Next]_vars => IndInv'
 <1>1. ASSUME NEW o \in Openers, TryOpen(o) PROVE IndInv'
   BY <1>1, NoneNotOpener DEF TryOpen, Tick, IndInv, TypeOK, Excl, Held
 <1>2. ASSUME NEW o \in Openers, Load(o) PROVE IndInv'
-  BY <1>2, NoneNotOpener, NoBug DEF Load, Tick, IndInv, TypeOK, Excl, Held
+  BY <1>2, NoneNotOpener, NoBug DEF Load, Leaks, NextPhase, Tick, IndInv, TypeOK, Excl, Held
 <1>3. ASSUME NEW o \in Openers, Close(o) PROVE IndInv'
   BY <1>3, NoneNotOpener DEF Close, Tick, IndInv, TypeOK, Excl, Held
 <1>4. ASSUME Flip PROVE IndInv'
-  BY <1>4, NoneNotOpener DEF Flip, Tick, IndInv, TypeOK, Excl, Held
+  BY <1>4, NoneNotOpener DEF Flip, Kinds, Tick, IndInv, TypeOK, Excl, Held
 <1>5. ASSUME UNCHANGED vars PROVE IndInv'
   BY <1>5 DEF vars, IndInv, TypeOK, Excl, Held
 <1> QED BY <1>1, <1>2, <1>3, <1>4, <1>5 DEF Next
